@@ -335,6 +335,24 @@ class Session:
             leaked = [x for x in diff if x.endswith("/*") and any("/*" in s[1] for s in (snap1.get(x), snap2.get(x)) if s)]
             detail["changed"] = diff[:20]
             detail["leaked_placeholders"] = leaked[:20]
+            # every difference is a partially resolved chain (state 'partial' after the first call) that got completed, and
+            # the chain goes through a born-resolved link (created by wildcard expansion / Alias.members)
+            by_path = {a.path: a for a in self.aliases()}
+
+            def _through_born(path) -> bool:
+                cur, seen_ids = by_path.get(path), set()
+                while cur is not None and cur.is_alias and cur.resolved and id(cur) not in seen_ids:
+                    seen_ids.add(id(cur))
+                    if id(cur) in self.born or (cur.parent is not None and cur.parent.is_alias):
+                        return True
+                    cur = cur.target
+                return False
+
+            detail["only_partial_completions"] = bool(diff) and all(
+                snap1.get(k) and snap2.get(k) and snap1[k][2][0] == "partial" and snap2[k][2][0] != "partial"
+                and snap1[k][:2] == snap2[k][:2] and _through_born(k)
+                for k in diff
+            )
             # nothing appeared or vanished, every difference is an alias going from unresolved to resolved
             detail["only_resolutions"] = bool(diff) and all(
                 snap1.get(k) and snap2.get(k) and not snap1[k][0] and snap2[k][0] for k in diff
@@ -478,6 +496,10 @@ def _is_wildcard_born(case, fail: Fail) -> bool:
     expansion (its name is not bound by an import statement of its module in the model): expanded aliases are
     constructed with the source member as target, i.e. born resolved, whatever the state of that member."""
     d = fail.detail or {}
+    if fail.clause == "fixpoint" and fail.kind == "alias-state-changes" and d.get("only_partial_completions"):
+        # consequence of the same finding: the partially resolved chains left by the first call (reported by the
+        # all-or-nothing clause in the same step) are completed lazily by the second call; nothing else changed
+        return True
     return fail.clause == "all-or-nothing" and d.get("origin") in ("wildcard-expansion", "alias-member") and fail.kind == "partial:" + d["origin"]
 
 
